@@ -14,8 +14,8 @@ RULE = ('histories log_1 ++ ... ++ log_k (k in 2..5) of appended day blocks incl
 ASSUMPTIONS = ['period figures are compared as printed on inputs whose arithmetic is exact in float64']
 
 PER_DAY = [(['reg'], {}), (['reg'], {'oldReg': True}), (['reg'], {'template': 'left-aligned'}), (['csv', 'log'], {}), (['print'], {}),
-           (['reg'], {'singleFood': 'a'}), (['reg'], {'singleElement': 'calories'})]
-PERIOD = [(['bal'], {}), (['report', 'totals'], {}), (['report', 'quantity'], {})]
+           (['reg'], {'singleFood': 'a'}), (['reg'], {'singleElement': 'calories'}), (['reg'], {'singleElement': 'calories', 'csv': True})]
+PERIOD = [(['bal'], {}), (['report', 'totals'], {}), (['report', 'quantity'], {}), (['reg'], {'singleElement': 'calories', 'groupFood': True})]
 
 
 def num_rows(out, kind):
